@@ -243,7 +243,7 @@ def build(repo=None):
                         caches.append((rel.split("/")[-1], n.name))
     known_caches = {("_array_types.py", "_make_array_cached"), ("_pytree_type.py", "__getitem__"), ("__init__.py", "__getattr__")}
     for c in sorted(set(caches)):
-        ob(f"C12:memoised-function-is-a-documented-pure-constructor-cache[{c[0]}:{c[1]}]", c in known_caches, ["C12", "C03", "C06", "C08"],  # (a cache is one object shared by every thread) why="annotation construction is a pure function of its (hashable) arguments" if c in known_caches else "UNDOCUMENTED cache: a verdict could depend on what was checked earlier in the process")
+        ob(f"C12:memoised-function-is-a-documented-pure-constructor-cache[{c[0]}:{c[1]}]", c in known_caches, ["C12", "C03", "C06", "C08"], why="annotation construction is a pure function of its (hashable) arguments" if c in known_caches else "UNDOCUMENTED cache: a verdict could depend on what was checked earlier in the process")
     # who calls make_transparent: only the old-style generator branch of jaxtyped (the known finding site)
     callers = []
     for rel in ("jaxtyping/_array_types.py", "jaxtyping/_pytree_type.py", "jaxtyping/_storage.py", "jaxtyping/_decorator.py", "jaxtyping/_import_hook.py"):
